@@ -283,6 +283,10 @@ func mergeCustomObjectFields(aTypes, bTypes map[string]*ast.Definition, a, b *as
 		}
 
 		rf := result.ForName(f.Name)
+		// a field shared by both schemas has to be declared identically
+		if rf != nil && !isSameFieldSignature(rf, f) {
+			return nil, fmt.Errorf("conflicting definitions of field %s : %s", a.Name, f.Name)
+		}
 		isOverlappinggMap[i] = rf != nil
 		result = append(result, f)
 	}
@@ -317,6 +321,27 @@ func mergeCustomObjectFields(aTypes, bTypes map[string]*ast.Definition, a, b *as
 	}
 
 	return result, nil
+}
+
+// isSameFieldSignature reports whether two definitions of one field agree on
+// type, argument names, argument types and argument defaults
+func isSameFieldSignature(a, b *ast.FieldDefinition) bool {
+	if a.Type.String() != b.Type.String() || len(a.Arguments) != len(b.Arguments) {
+		return false
+	}
+	for _, aa := range a.Arguments {
+		ba := b.Arguments.ForName(aa.Name)
+		if ba == nil || aa.Type.String() != ba.Type.String() {
+			return false
+		}
+		if (aa.DefaultValue == nil) != (ba.DefaultValue == nil) {
+			return false
+		}
+		if aa.DefaultValue != nil && aa.DefaultValue.String() != ba.DefaultValue.String() {
+			return false
+		}
+	}
+	return true
 }
 
 func mergeableFields(t *ast.Definition) ast.FieldList {
